@@ -145,7 +145,7 @@ func prepareQuery(ctx context.Context, typ Type, selectionSet *SelectionSet, pre
 		}
 
 		for _, fragment := range selectionSet.Fragments {
-			if fragment.On == typ.Name {
+			if fragment.On == typ.Name || fragment.On == "" {
 				// A fragment on the union type itself: what it selects is
 				// selected on the union.
 				if err := prepareQuery(ctx, typ, fragment.SelectionSet, prepared); err != nil {
